@@ -60,6 +60,16 @@ def firstIn (ok : Rat → Bool) : Nat → List Rat → Option (Rat × List Rat)
   | _, [] => none
   | f + 1, v :: vs => if ok v then some (v, vs) else firstIn ok f vs
 
+/-- The stream of generator values of a *rejection-streak* scenario: for each loop in turn a list
+    of values (meant to be rejected by that loop) followed by one more value (meant to be
+    accepted), then whatever comes after (`rest`).  Used to state that the loops below never give
+    up: however long the streaks, the accepted values are what a jump returns (`EpsieProps/C12`,
+    `C12_rejection_streak_*`), which the harness checks on the real loops with streaks of up to
+    250001 draws. -/
+def streakStream : List (List Rat × Rat) → List Rat → List Rat
+  | [], rest => rest
+  | (pre, v) :: ps, rest => pre ++ v :: streakStream ps rest
+
 /-! ## BoundedNormal -/
 
 /-- `Boundaries`: a closed interval. -/
